@@ -609,8 +609,12 @@ F("authenticate_message", props=["C04", "C15", "C07"], body_sub=CONCAT_VECS, clo
    lemma_auth_view_bytes(v, flags);
    if %s { assert(v =~= %s); }
  }""" % (AUTH_SMALL, AUTH_DESCS))
-F("get_payload_field", props=["C07", "C04"],
+F("get_payload_field", props=["C07", "C04", "C15"],
   requires=["payload_last(message.fields())"],
+  # C15 "every target-information block": a (length, offset) pair is REFUSED only when it really leaves the payload (a field that starts exactly at the
+  # first payload byte, e.g. TargetInfo after an empty TargetName, is inside)
+  claims=[(r"return Err\(.*field offset inside the header", 1, "proof { assert((buffer_offset as int) < ser(message.mv()).len() - payload@.len()); }", "before", "C15,C04", "offset-refused-only-inside-the-header"),
+          (r"return Err\(.*field outside the payload", 1, "proof { assert(buffer_offset as int + length as int > ser(message.mv()).len()); }", "before", "C15,C04", "field-refused-only-outside-the-payload")],
   ensures=[("C07,C04", "field-inside-the-message", "r is Ok ==> buffer_offset + length <= ser(message.mv()).len() && r->Ok_0@ == ser(message.mv()).subrange(buffer_offset as int, buffer_offset + length)"),
            (None, "length", "r is Ok ==> r->Ok_0@.len() == length")],
   pre="""proof { lemma_payload_suffix(message.fields(), 0, Set::empty()); reveal_with_fuel(ser, 1);
@@ -713,6 +717,12 @@ T("read_challenge_message", IMPL_AUTH,
            ("C15,C04", "token", """r is Ok ==> exists|sc: Seq<u8>, cc: Seq<u8>, time: Seq<u8>, info: Seq<u8>, hdr: Seq<u8>| #[trigger] is_auth_token(r->Ok_0@, old(self).response_key_nt@, old(self).response_key_lm@,
             final(self).domain_spec(), final(self).user_spec(), final(self).exported_session_key->Some_0@, old(self).negotiate_message->Some_0@, request@, sc, cc, time, info, hdr)""")],
   pre="broadcast use axiom_digest_len, axiom_utf8_len, axiom_utf16le_len;",
+  # C04/C15: what is fed to the NT response as the server's target information is the block that the CHALLENGE addresses with
+  # TargetInfoLen / TargetInfoBufferOffset (fields 8 and 10 of the parsed layout), not some other field of the message
+  claims=[(r"let target_info = read_target_info\(", 1, """proof { let f = result.fields();
+            assert(f[8].0 == "TargetInfoLen"@ && f[10].0 == "TargetInfoBufferOffset"@ && f[8].1 is U16 && f[10].1 is U32);
+            assert(first_key(f, "TargetInfoLen"@) == 8 && first_key(f, "TargetInfoBufferOffset"@) == 10);
+            assert(target_name@ == ser(result.mv()).subrange(f[10].1->U32_0 as int, f[10].1->U32_0 + f[8].1->U16_0)); }""", "before", "C04,C15", "target-info-is-the-addressed-block")],
   hints=[(r"result\.read\(&mut stream\)\?;", 1, """proof {
             result.axiom_ranges();
             reveal_with_fuel(same_shape, 2);
